@@ -11,3 +11,4 @@ pub mod spawny;
 pub mod errs;
 pub mod aggs;
 pub mod tree;
+pub mod round;
